@@ -640,9 +640,12 @@ func taintSafeCallee(c ssa.CallInstruction) (ok bool, resultAliases bool) {
 		"(encoding/binary.bigEndian).PutUint32", "(encoding/binary.bigEndian).Uint32", "(encoding/binary.bigEndian).PutUint64",
 		"(*bytes.Buffer).Write", "(*bytes.Buffer).Reset", "(*bytes.Buffer).Len", "(*bytes.Buffer).ReadFrom",
 		"(*sync.Pool).Put", "bytes.Equal", "fmt.Errorf", "fmt.Sprintf",
+		"bytes.HasPrefix", "bytes.HasSuffix", "bytes.Contains", "bytes.Index", "bytes.IndexByte", "bytes.IndexAny", "bytes.LastIndexByte",
 		"google.golang.org/protobuf/proto.Unmarshal", "google.golang.org/protobuf/encoding/protojson.Unmarshal":
 		return true, false
-	case "bytes.NewReader", "(*bytes.Buffer).Bytes", "io.LimitReader", "builtin.append":
+	case "bytes.NewReader", "(*bytes.Buffer).Bytes", "io.LimitReader", "builtin.append",
+		// package bytes' trimmers return a subslice of their argument and keep nothing
+		"bytes.TrimSpace", "bytes.TrimLeft", "bytes.TrimRight", "bytes.Trim", "bytes.TrimPrefix", "bytes.TrimSuffix":
 		return true, true
 	}
 	return false, false
